@@ -4,7 +4,10 @@ package pmdiff
 
 import (
 	"fmt"
+	"regexp"
 	"slices"
+	"strconv"
+	"strings"
 
 	"github.com/creachadair/mds/mdiff"
 	"github.com/creachadair/mds/slice"
@@ -18,7 +21,45 @@ type DiffCase struct {
 	N int      `json:"n"`
 }
 
-func (c DiffCase) String() string { return fmt.Sprintf("L=%q R=%q n=%d", c.L, c.R, c.N) }
+func (c DiffCase) String() string {
+	return fmt.Sprintf("L=%s R=%s n=%d", showLines(c.L), showLines(c.R), c.N)
+}
+
+// Long lines are written symbolically in cases: "<<L4096x>>" stands for a
+// line of 4096 'x' bytes (a real line never has this form in the generators).
+var longLine = regexp.MustCompile(`^<<L(\d+)(.)>>$`)
+
+func expandLines(ls []string) []string {
+	if ls == nil {
+		return nil
+	}
+	out := make([]string, len(ls))
+	for i, l := range ls {
+		if m := longLine.FindStringSubmatch(l); m != nil {
+			n, _ := strconv.Atoi(m[1])
+			l = strings.Repeat(m[2], n)
+		}
+		out[i] = l
+	}
+	return out
+}
+
+func showLines(ls []string) string {
+	var sb strings.Builder
+	sb.WriteByte('[')
+	for i, l := range ls {
+		if i > 0 {
+			sb.WriteByte(' ')
+		}
+		if len(l) > 40 {
+			fmt.Fprintf(&sb, "%q…(%d bytes)", l[:12], len(l))
+		} else {
+			fmt.Fprintf(&sb, "%q", l)
+		}
+	}
+	sb.WriteByte(']')
+	return sb.String()
+}
 
 type edit struct {
 	Op   slice.EditOp
@@ -181,6 +222,7 @@ func hasRepeat(xs ...[]string) bool {
 }
 
 func runC13(c DiffCase, o *vk.Obs) string {
+	c.L, c.R = expandLines(c.L), expandLines(c.R)
 	L, R := slices.Clone(c.L), slices.Clone(c.R)
 	if c.L == nil {
 		L = nil
@@ -266,7 +308,7 @@ func runC13(c DiffCase, o *vk.Obs) string {
 		if !sameEdits(baseEdits[i], es) {
 			return fail("AddContext", fmt.Sprintf("chunk %d: the edits between the context are %v, were %v", i, es, baseEdits[i]))
 		}
-		if i > 0 && base[i].ls-base[i-1].le < 2*n {
+		if i > 0 && (n > 1<<30 || base[i].ls-base[i-1].le < 2*n) {
 			overlapOrMeet = true
 		}
 	}
